@@ -22,6 +22,7 @@ import (
 
 func init() {
 	xstate.Setups["iolog"] = func(e *pagedrv.Env) { e.Disk.StartLog() }
+	xstate.Setups["eager"] = func(e *pagedrv.Env) { e.Eager = true }
 	TaskHandlers["crash"] = handleCrash
 	register(&Check{ID: "C01", Level: "fault_enumeration", Replay: replayCrash, Run: runC01})
 }
@@ -59,7 +60,7 @@ type CrashTask struct {
 	Path    []O    `json:"path"`
 	MaxBits int    `json:"max_bits"` // full subset enumeration up to this many pending units
 	Tears   bool   `json:"tears"`
-	Queue   bool   `json:"queue,omitempty"`
+	Eager   bool   `json:"eager,omitempty"` // background writer drains after every operation
 	// Only: evaluate just this image (replay)
 	Only *ImageRecipe `json:"only,omitempty"`
 }
@@ -253,7 +254,11 @@ func handleCrash(raw []byte) interface{} {
 		return CrashResult{EngineError: "empty path"}
 	}
 	res := CrashResult{Outcomes: map[string]int{}}
-	env, sv, err := xstate.Replay(cfg, t.Path[:len(t.Path)-1], &t.Path[len(t.Path)-1], []string{"iolog"}, nil)
+	flags := []string{"iolog"}
+	if t.Eager {
+		flags = append(flags, "eager")
+	}
+	env, sv, err := xstate.Replay(cfg, t.Path[:len(t.Path)-1], &t.Path[len(t.Path)-1], flags, nil)
 	if err != nil {
 		return CrashResult{EngineError: err.Error()}
 	}
@@ -421,11 +426,29 @@ func runC01(ctx *core.Ctx, pool *par.Pool) {
 		endBFS := ctx.Phase(share * 4 / 10)
 		st := xstate.BFS(ctx, pool, xstate.Spec{Cfg: cfg, Seed: run.Seed.Ops, Alphabet: crashAlphabet(ctx.Quick()), MaxDepth: run.Depth, Flags: []string{"iolog"},
 			OnTransition: func(from *xstate.Node, s *xstate.Succ, isNew bool, to *xstate.Node) {
-				if s.IOSig == "" || s.Dead || sigs[s.IOSig] {
+				if s.IOSig == "" || s.Dead {
 					return
 				}
-				sigs[s.IOSig] = true
-				tasks = append(tasks, CrashTask{Type: "crash", Cfg: cfg.Name, Path: append(from.Path(), s.Op), MaxBits: maxBits, Tears: true})
+				// a transaction that flushed explicitly is a shape of its own: with an eager writer its
+				// pages are written (and the data sync of the commit finds nothing left to write)
+				path := append(from.Path(), s.Op)
+				sig, flushed := s.IOSig, false
+				for i := len(path) - 1; i >= 0 && path[i].K != pagedrv.OBegin; i-- {
+					if path[i].K == pagedrv.OFlushTx || path[i].K == pagedrv.OFlushPage || path[i].K == pagedrv.OCheckpoint {
+						flushed = true
+					}
+				}
+				if flushed {
+					sig += "|flushed"
+				}
+				if sigs[sig] {
+					return
+				}
+				sigs[sig] = true
+				tasks = append(tasks, CrashTask{Type: "crash", Cfg: cfg.Name, Path: path, MaxBits: maxBits, Tears: true})
+				if flushed {
+					tasks = append(tasks, CrashTask{Type: "crash", Cfg: cfg.Name, Path: path, MaxBits: maxBits, Tears: true, Eager: true})
+				}
 			}})
 		endBFS()
 		total.States += st.States
